@@ -838,6 +838,9 @@ class Path:
         return s.to_smt2()
 
 
+PATH_START = []   # callbacks run before every explored path (symx.stack: reset process state of the code under test)
+
+
 class Explorer:
     def __init__(self, max_paths=20000, max_seconds=None, solver_timeout_ms=20000):
         self.max_paths = max_paths
@@ -857,6 +860,8 @@ class Explorer:
             ctx = Ctx(trail, self.timeout_ms)
             Ctx.cur = ctx
             del UF_LOG[:]
+            for cb in PATH_START:
+                cb()
             for p in pre:
                 ctx.assume(p)
             result, raised, aborted = None, None, False
